@@ -91,31 +91,31 @@ type ModItem struct {
 type VarDecl struct{ Name, Type string }
 
 type Contract struct {
-	PkgPath  string
-	PkgDir   string
-	Kind     string // func | iface
-	Target   string // "(*cache).set" | "getCause" | "Node.HasExpired"
-	Props    []string
-	Modes    []string
-	Flags    map[string]bool
-	Vars     []VarDecl
-	Requires []*Clause
-	Ensures  []*Clause
-	Modifies []string
-	Mods     []*ModItem
-	Loops    map[int]*LoopSpec
-	Cbs      map[string]*CbSpec
-	Sites    map[string][]*Clause // call-site assertions: callee name -> clauses over the caller's locals
+	PkgPath      string
+	PkgDir       string
+	Kind         string // func | iface
+	Target       string // "(*cache).set" | "getCause" | "Node.HasExpired"
+	Props        []string
+	Modes        []string
+	Flags        map[string]bool
+	Vars         []VarDecl
+	Requires     []*Clause
+	Ensures      []*Clause
+	Modifies     []string
+	Mods         []*ModItem
+	Loops        map[int]*LoopSpec
+	Cbs          map[string]*CbSpec
+	Sites        map[string][]*Clause // call-site assertions: callee name -> clauses over the caller's locals
 	ClosureLoops map[string]*LoopSpec // "closureName:ordinal" -> loop spec
-	Line     int
-	Notes    []string
+	Line         int
+	Notes        []string
 
 	// resolved
-	Obj      *types.Func
-	RecvName string
-	Params   []string // names in order: receiver, params
-	Results  []string
-	allCl    []*Clause
+	Obj         *types.Func
+	RecvName    string
+	Params      []string // names in order: receiver, params
+	Results     []string
+	allCl       []*Clause
 	OwnModifies []string // own-modifies: what the function itself writes, apart from the effects of its callbacks
 	OwnMods     []*ModItem
 	HasOwn      bool
@@ -286,7 +286,7 @@ func parseContractFile(path, pkgDir string, src []byte) (*ContractFile, error) {
 			for _, fl := range strings.Fields(rest) {
 				cur.Flags[fl] = true
 			}
-		case "assumed", "nopanic", "pure", "inline", "fresh", "panics", "noframe", "noreturn", "may-panic", "nilcheck", "counted", "nonblocking-sends":
+		case "assumed", "nopanic", "pure", "inline", "fresh", "panics", "noframe", "noreturn", "may-panic", "nilcheck", "counted", "nonblocking-sends", "bounded", "bodies", "thorough-only":
 			cur.Flags[kw] = true
 			if rest != "" {
 				cur.Notes = append(cur.Notes, kw+": "+rest)
@@ -1051,7 +1051,20 @@ func (g *genCtx) generate(cf *ContractFile) (string, error) {
 					et := strings.TrimSuffix(strings.TrimPrefix(raw, "[]"), "::*")
 					w := map[string]int{"uint64": 64, "int64": 64, "int": 64, "uint": 64, "uint32": 32, "int32": 32, "uint8": 8, "byte": 8}[et]
 					if w == 0 {
-						return nil, fmt.Errorf("unsupported element type in %q", raw)
+						// a named element type: `[]node.Node::*` (the array of all slices of that element type)
+						nm := et
+						if k := strings.Index(nm, "["); k >= 0 {
+							nm = nm[:k]
+						}
+						if k := strings.LastIndex(nm, "."); k >= 0 {
+							nm = nm[k+1:]
+						}
+						if nm == "" || !isIdentByte(nm[0]) {
+							return nil, fmt.Errorf("unsupported element type in %q", raw)
+						}
+						mi.Kind, mi.Type, mi.Field = "wholekey", "", "E:"+nm
+						out = append(out, mi)
+						continue
 					}
 					if et == "byte" {
 						et = "uint8"
@@ -1153,7 +1166,7 @@ func (g *genCtx) generate(cf *ContractFile) (string, error) {
 	text := body.String()
 	var imps []string
 	for name, path := range g.imports {
-		if regexp.MustCompile(`\b`+regexp.QuoteMeta(name)+`\.`).MatchString(text) {
+		if regexp.MustCompile(`\b` + regexp.QuoteMeta(name) + `\.`).MatchString(text) {
 			imps = append(imps, fmt.Sprintf("\t%s %q\n", name, path))
 		}
 	}
